@@ -781,8 +781,14 @@ class Table(JupyterMixin):
                     and not (show_header and header_row)
                 ):
                     if leading:
+                        for _ in range(leading - 1):
+                            yield _Segment(
+                                _box.get_row(widths, "mid", edge=show_edge),
+                                border_style,
+                            )
+                            yield new_line
                         yield _Segment(
-                            _box.get_row(widths, "mid", edge=show_edge) * leading,
+                            _box.get_row(widths, "mid", edge=show_edge),
                             border_style,
                         )
                     else:
